@@ -662,7 +662,45 @@ func jPodSpec(ps []CPort) M {
 	if len(ps) > 0 {
 		c["ports"] = jCPorts(ps)
 	}
-	return M{"containers": []M{c}}
+	spec := M{"containers": []M{c}}
+	// one pod spec in three also carries a native sidecar (an init container that keeps running) declaring, on other numbers,
+	// the port names the containers do not use: the analysis reads the ports of spec.containers only, for a workload's template
+	// and for a Pod alike, so nothing may change - and a rule naming such a port must open nothing in either form
+	sum := len(ps)
+	used := map[string]bool{}
+	for _, p := range ps {
+		sum += p.Port
+		used[p.Name] = true
+	}
+	if sum%3 == 1 {
+		var sp []M
+		for i, nm := range portNames {
+			if !used[nm] {
+				sp = append(sp, M{"containerPort": 15090 + i, "name": nm})
+			}
+		}
+		side := M{"name": "side", "image": "img", "restartPolicy": "Always"}
+		if len(sp) > 0 {
+			side["ports"] = sp
+		}
+		spec["initContainers"] = []M{side}
+	}
+	return spec
+}
+
+// wlAPIVersion: the group/version a workload manifest is written with; every fifth Deployment / ReplicaSet / DaemonSet comes in
+// the legacy group extensions/v1beta1 (old charts and exports), which the tool reads as the same kind
+func wlAPIVersion(w *Workload) string {
+	if w.Kind == "Deployment" || w.Kind == "ReplicaSet" || w.Kind == "DaemonSet" {
+		h := 0
+		for _, c := range w.NS + "/" + w.Name {
+			h = (h*31 + int(c)) % 1000003
+		}
+		if h%5 == 0 {
+			return "extensions/v1beta1"
+		}
+	}
+	return wlAPI[w.Kind]
 }
 
 func jNPRules(rs []NPRule, peerKey string) []M {
@@ -807,7 +845,7 @@ func (o Obj) Doc() M {
 				spec["replicas"] = *w.Replicas
 			}
 		}
-		return M{"apiVersion": wlAPI[w.Kind], "kind": w.Kind, "metadata": M{"name": w.Name, "namespace": w.NS}, "spec": spec}
+		return M{"apiVersion": wlAPIVersion(w), "kind": w.Kind, "metadata": M{"name": w.Name, "namespace": w.NS}, "spec": spec}
 	case "pod":
 		p := o.Pod
 		md := M{"name": p.Name, "namespace": p.NS}
